@@ -45,6 +45,32 @@ def roles(model):
                             and n.targets[0].value.value.id == "self":
                         r["PHLK"] = n.targets[0].value.attr
                         r["SET_PHLK"] = fn.name
+    # ... or built in one expression, self.X = {K: V for T in <phase_conf>...}: read as `self.X = {}` followed by the loop (rewritten in
+    # place, once per model: every rule then sees the loop form)
+    if "PHLK" not in r:
+        for fn in sysc.body:
+            if not isinstance(fn, ast.FunctionDef):
+                continue
+            for i, n in enumerate(fn.body):
+                if isinstance(n, ast.Assign) and len(n.targets) == 1 and isinstance(n.targets[0], ast.Attribute) and isinstance(n.targets[0].value, ast.Name) \
+                        and n.targets[0].value.id == "self" and isinstance(n.value, ast.DictComp) and len(n.value.generators) == 1 \
+                        and "phase_conf" in ast.dump(n.value.generators[0].iter) and not n.value.generators[0].ifs:
+                    g = n.value.generators[0]
+                    tgt = ast.Attribute(value=ast.Name(id="self", ctx=ast.Load()), attr=n.targets[0].attr, ctx=ast.Load())
+                    init = ast.copy_location(ast.Assign(targets=[n.targets[0]], value=ast.Dict(keys=[], values=[])), n)
+                    store = ast.Assign(targets=[ast.Subscript(value=tgt, slice=n.value.key, ctx=ast.Store())], value=n.value.value)
+                    loop = ast.copy_location(ast.For(target=g.target, iter=g.iter, body=[ast.copy_location(store, n)], orelse=[]), n)
+                    for y in ast.walk(loop):
+                        if isinstance(y, ast.Name) and any(y is z for z in ast.walk(g.target)):
+                            y.ctx = ast.Store()
+                    fn.body[i:i + 1] = [init, loop]
+                    ast.fix_missing_locations(fn)
+                    for node in ast.walk(fn):
+                        for ch in ast.iter_child_nodes(node):
+                            ch._parent = node
+                    r["PHLK"] = n.targets[0].attr
+                    r["SET_PHLK"] = fn.name
+                    break
     # SOLVER: method with the only while loop calling two sibling methods
     for fn in sysc.body:
         if isinstance(fn, ast.FunctionDef):
